@@ -406,7 +406,7 @@ def enc(shape, kind="normal", **kw):
 
 
 def mask_spec(p_none=0.5):
-    return st.one_of(st.none(), st.builds(lambda s, k: {"seed": s, "kind": k}, gen.seeds, st.sampled_from(["float", "float", "bool"])))
+    return st.one_of(st.none(), st.builds(lambda s, k: {"seed": s, "kind": k}, gen.seeds, st.sampled_from(["float", "bool"])))
 
 
 def small_shape(min_order=2, max_order=3, min_side=2, max_side=4, max_size=48):
